@@ -7,25 +7,23 @@ from typing import Iterable, Iterator
 
 from .cfg import CFG, Node, cfg_of
 from .core import Ctx
-from .dataflow import walk_scope
+from .dataflow import walk_body, walk_scope
 from .model import Func, Repo, dotted, parent
 from .terms import Term, subterms
 
 
 def calls_in(func: Func) -> Iterator[ast.Call]:
     roots = [func.node.body] if isinstance(func.node, ast.Lambda) else func.node.body
-    for r in roots:
-        for n in walk_scope(r):
-            if isinstance(n, ast.Call):
-                yield n
+    for n in walk_body(roots):
+        if isinstance(n, ast.Call):
+            yield n
 
 
 def nodes_in(func: Func, types) -> Iterator[ast.AST]:
     roots = [func.node.body] if isinstance(func.node, ast.Lambda) else func.node.body
-    for r in roots:
-        for n in walk_scope(r):
-            if isinstance(n, types):
-                yield n
+    for n in walk_body(roots):
+        if isinstance(n, types):
+            yield n
 
 
 def call_sites_to(ctx: Ctx, targets: Iterable[Func]) -> list[tuple[Func, ast.Call]]:
